@@ -32,6 +32,7 @@ theorem checkOnCurve_toMontgomery (x y : Nat) :
 
 theorem parsePoint_valid {b : Bytes} {Q : Spec.SM2.Point} (h : parsePoint b = some Q) : Valid Q := by
   unfold parsePoint at h
+  dsimp only at h
   split at h
   · injection h with h; subst h; exact valid_none
   · split at h
@@ -67,21 +68,34 @@ theorem setBytes_eq (b : Bytes) :
       have l1 : ((b.drop 1).take 32).length = 32 := by
         rw [List.length_take, List.length_drop]; omega
       have l2 : (b.drop 33).length = 32 := by rw [List.length_drop]; omega
+      have ex : Field.setBytes SM2.Fp ((b.drop 1).take 32) =
+          if Bytes.toNatBE ((b.drop 1).take 32) < p then
+            .ok (SM2.Fp.toMontgomery (Bytes.toNatBE ((b.drop 1).take 32))) else .err := by
+        rw [PointField.setBytes_eq]; simp only [l1, true_and]
+      have ey : Field.setBytes SM2.Fp (b.drop 33) =
+          if Bytes.toNatBE (b.drop 33) < p then
+            .ok (SM2.Fp.toMontgomery (Bytes.toNatBE (b.drop 33))) else .err := by
+        rw [PointField.setBytes_eq]; simp only [l2, true_and]
       show (Field.setBytes SM2.Fp ((b.drop 1).take 32) >>= fun x =>
             Field.setBytes SM2.Fp (b.drop 33) >>= fun y =>
               if Point.checkOnCurve SM2.pointCtx x y = true then
-                Outcome.ok ({ x := x, y := y, z := SM2.Fp.setOne } : Pt Nat) else Outcome.err) = _
-      rw [PointField.setBytes_eq, PointField.setBytes_eq]
-      simp only [l1, l2, true_and]
+                Outcome.ok ({ x := x, y := y, z := SM2.Fp.setOne } : Pt Nat) else Outcome.err) =
+          match (if Bytes.toNatBE ((b.drop 1).take 32) < p ∧ Bytes.toNatBE (b.drop 33) < p ∧
+                onCurve (Bytes.toNatBE ((b.drop 1).take 32)) (Bytes.toNatBE (b.drop 33)) = true
+              then some (some (Bytes.toNatBE ((b.drop 1).take 32), Bytes.toNatBE (b.drop 33))) else none) with
+          | some Q => Outcome.ok (ofSpec Q)
+          | none => Outcome.err
+      rw [ex, ey]
       by_cases hx : Bytes.toNatBE ((b.drop 1).take 32) < p
-      · by_cases hy : Bytes.toNatBE (b.drop 33) < p
-        · simp only [hx, hy, if_true, Outcome.bind_ok, checkOnCurve_toMontgomery, true_and]
+      · rw [if_pos hx, Outcome.bind_ok]
+        by_cases hy : Bytes.toNatBE (b.drop 33) < p
+        · rw [if_pos hy, Outcome.bind_ok, checkOnCurve_toMontgomery]
           by_cases hc : onCurve (Bytes.toNatBE ((b.drop 1).take 32)) (Bytes.toNatBE (b.drop 33)) = true
-          · simp only [hc, if_true]; rfl
-          · simp only [hc, Bool.false_eq_true, if_false]
-        · simp only [hx, hy, if_true, if_false, Outcome.bind_ok, Outcome.bind_err, false_and,
-            and_false]
-      · simp only [hx, if_false, Outcome.bind_err, false_and]
+          · rw [if_pos hc, if_pos ⟨hx, hy, hc⟩]
+            rfl
+          · rw [if_neg hc, if_neg (fun h => hc h.2.2)]
+        · rw [if_neg hy, Outcome.bind_err, if_neg (fun h => hy h.2.1)]
+      · rw [if_neg hx, Outcome.bind_err, if_neg (fun h => hx h.1)]
     · rw [if_neg h65, if_neg h65]
 
 /-- the same with the representation made explicit -/
@@ -172,7 +186,7 @@ theorem parsePoint_pointBytes {Q : Spec.SM2.Point} (hQ : Valid Q) : parsePoint (
       intro h; rw [h] at hlen; simp at hlen
     have lx : (Bytes.ofNatBE 32 x).length = 32 := SM2SignBytes.ofNatBE_length _ _
     have d1 : (([4] ++ Bytes.ofNatBE 32 x ++ Bytes.ofNatBE 32 y).drop 1).take 32 = Bytes.ofNatBE 32 x := by
-      simp [List.take_append, lx]
+      simp [lx]
     have d2 : ([4] ++ Bytes.ofNatBE 32 x ++ Bytes.ofNatBE 32 y).drop 33 = Bytes.ofNatBE 32 y := by
       have : ([4] ++ Bytes.ofNatBE 32 x ++ Bytes.ofNatBE 32 y) = ([4] ++ Bytes.ofNatBE 32 x) ++ Bytes.ofNatBE 32 y := rfl
       rw [this, List.drop_append_of_le_length (by simp [lx])]
@@ -187,6 +201,7 @@ theorem parsePoint_pointBytes {Q : Spec.SM2.Point} (hQ : Valid Q) : parsePoint (
 theorem pointBytes_parsePoint {b : Bytes} {Q : Spec.SM2.Point} (h : parsePoint b = some Q) :
     pointBytes Q = b := by
   unfold parsePoint at h
+  dsimp only at h
   split at h
   · rename_i h0
     injection h with h; subst h; rw [h0]; rfl
@@ -201,6 +216,7 @@ theorem pointBytes_parsePoint {b : Bytes} {Q : Spec.SM2.Point} (h : parsePoint b
         have e1 := SM2SignBytes.ofNatBE_toNatBE ((b.drop 1).take 32)
         have e2 := SM2SignBytes.ofNatBE_toNatBE (b.drop 33)
         rw [l1] at e1; rw [l2] at e2
+        show [4] ++ Bytes.ofNatBE 32 _ ++ Bytes.ofNatBE 32 _ = b
         rw [e1, e2]
         obtain ⟨hl, hh⟩ := h65
         match b, hl, hh with
@@ -209,7 +225,6 @@ theorem pointBytes_parsePoint {b : Bytes} {Q : Spec.SM2.Point} (h : parsePoint b
           subst hh
           simp only [List.drop_succ_cons, List.drop_zero, List.cons_append, List.nil_append, List.cons.injEq,
             true_and]
-          have : t.drop 32 = (t.drop 32) := rfl
           rw [List.take_append_drop]
       · cases h
     · cases h
